@@ -13,6 +13,7 @@ import time
 
 import findings
 import leanbuild
+import net_tie
 import progs
 import schedcase as sc
 
@@ -49,6 +50,15 @@ def proj_c01(calls):
         ntf = sum(1 for e in c["out"] if inv0(e) and e[1] == "tf" and e[6] is None)
         out.append([c["op"]["op"], c["ret"], c["exc"], c["running"], len(c["awaited"]), c["start_awaited"], ntf])
     return out
+
+
+def proj_net_c01(calls):
+    """C01 at the net layer: the marking after every call, "exactly one token, in the final place" """
+    return [a + [c.get("marking"), c.get("final_marking")] for a, c in zip(proj_c01(calls), calls)]
+
+
+# properties whose net-level theorems speak about the generated net itself: the structure is part of the tie
+NET_STRUCTURE_PROPS = ("C01",)
 
 
 def proj_order(calls):
@@ -185,9 +195,17 @@ def job_run(case):
         if res["valid"]:
             viol, stats = monitors.monitor_all(case, calls, case["answers"])
             stats["params_delivered"] = sum(1 for c in calls for e in c["out"] if e[0] == "INV" and e[2] == 0 and e[1] in ("ts", "ss") and e[7])
+        net0 = net1 = None
+        if res["valid"] and run is not None and case.get("ids", "test") == "test":
+            # the implementation's net as a structure (creation order), for the net layer of the model
+            net0 = run.net0
+            try:
+                net1 = run.net_structure()
+            except Exception as ex:  # noqa: BLE001
+                net1 = {"error": type(ex).__name__}
         signal.alarm(0)
         return {"case": case, "valid": res["valid"], "ctor_exc": res["ctor_exc"], "ctor_out": res["ctor_out"],
-                "calls": calls, "viol": viol, "stats": stats}
+                "calls": calls, "viol": viol, "stats": stats, "net0": net0, "net1": net1}
     except CaseTimeout:
         return {"case": case, "valid": None, "timeout": True, "calls": [], "viol": [], "stats": {}}
     finally:
@@ -800,6 +818,8 @@ def _run(ctx, cfg, n_cases, pool, res):
     timeouts = [r for r in results if r.get("timeout")]
     # model --------------------------------------------------------------------------------------
     disagreements = []
+    net_disagreements = []
+    net_cases = []
     model_errors = 0
     if ctx["model_ok"]:
         modelled = [r for r in valid if not r["case"].get("imm_other") and not r["case"].get("imm_sf")]
@@ -809,6 +829,17 @@ def _run(ctx, cfg, n_cases, pool, res):
             r["model_stuck"] = any(c.get("stuck") == "outOfFuel" for c in resp.get("calls", []))
             if d and not r["model_stuck"]:
                 disagreements.append((r, d))
+        # the net layer of the model (generator.py / logic.py / the net callbacks as the code does them): also the
+        # cases with cross re-entrant completions, which the structural model does not cover
+        net_cases = [r for r in valid if net_tie.applicable(r["case"])]
+        nresps = run_model([net_tie.net_request(r["case"]) for r in net_cases])
+        for r, resp in zip(net_cases, nresps):
+            r["net_stuck"] = any(c.get("stuck") == "outOfFuel" for c in resp.get("calls", []))
+            d = net_tie.compare_calls(r["calls"], r.get("net0") if prop in NET_STRUCTURE_PROPS else None,
+                                      r.get("net1") if prop in NET_STRUCTURE_PROPS else None, resp,
+                                      proj=(proj_net_c01 if prop == "C01" else proj))
+            if d and not r["net_stuck"]:
+                net_disagreements.append((r, "net layer: " + d))
     else:
         res["unexplained"].append({"what": "the Lean model does not build: " + "; ".join(ctx["build"].get("build_errors", [])[:3])})
     # violations found by the monitors -------------------------------------------------------------
@@ -945,6 +976,8 @@ def _run(ctx, cfg, n_cases, pool, res):
                 v = {"prop": "C08", "rule": "as_if_never_sent", "msg": "the run with the rejected calls removed differs: " + first_diff(pa, pb)}
                 res["violations"].append({"rule": v["rule"], "msg": v["msg"], "replay_obj": _replay_obj(prop, r, v)})
     # disagreements: search for a failing input around them -----------------------------------------
+    net_only = bool(net_disagreements) and not disagreements
+    disagreements = disagreements + net_disagreements
     if disagreements and not res["violations"]:
         found = False
         # intensified search: re-run the disagreeing programs with other schedules / both id modes / hostile EE
@@ -968,7 +1001,10 @@ def _run(ctx, cfg, n_cases, pool, res):
                 break
         if not found:
             r, d = disagreements[0]
-            small = shrink(pool, r["case"], lambda rr: bool(rr.get("valid")) and disagree_pred(rr, proj), budget=32)
+            if net_only:
+                small = shrink(pool, r["case"], lambda rr: bool(rr.get("valid")) and net_disagree_pred(rr, prop, proj), budget=32)
+            else:
+                small = shrink(pool, r["case"], lambda rr: bool(rr.get("valid")) and disagree_pred(rr, proj), budget=32)
             res["unexplained"].append({"what": "correspondence broken for the %s projection on %d of %d cases: %s" % (prop, len(disagreements), len(valid), d),
                                        "case": strip_case(small), "detail": d})
     # coverage -------------------------------------------------------------------------------------
@@ -1011,7 +1047,10 @@ def _run(ctx, cfg, n_cases, pool, res):
         "rule": "cases = random valid program (typed generator, all 7 statement kinds, outside the known-finding shapes) x scripted EE (values per query, completion order %s, immediate completions none/all/mixed)%s; distinct by hash of (text, ops, imm, ids); non-trivial: %s"
                 % ("fifo/lifo/random", " x API history (junk events, repeated start, registration/attach history)" if cfg.get("hist") else "", cfg["rule"]),
         "traces_validated_against_impl": len([r for r in valid if not r["case"].get("imm_other")]) if ctx["model_ok"] else 0,
-        "monitor_only_cross_reentrant_cases": len([r for r in valid if r["case"].get("imm_other")]),
+        "monitor_only_cross_reentrant_cases": len([r for r in valid if r["case"].get("imm_other") and not net_tie.applicable(r["case"])]),
+        "net_layer_cases": len(net_cases),
+        "net_layer_cross_reentrant_cases": len([r for r in net_cases if r["case"].get("imm_other")]),
+        "net_layer_transitions_max": max([len((r.get("net1") or {}).get("trans", [])) for r in net_cases] or [0]),
         "disagreements_checked": len(disagreements),
         "model_out_of_fuel": sum(1 for r in valid if r.get("model_stuck")),
         "invalid_programs": len(invalid),
@@ -1031,6 +1070,18 @@ def _run(ctx, cfg, n_cases, pool, res):
         res["notes"].append("%d generated programs were rejected by the validator (first: %s)" % (len(invalid), invalid[0].get("ctor_out", "")[:200]))
     if timeouts:
         res["notes"].append("%d cases timed out" % len(timeouts))
+
+
+def net_disagree_pred(rr, prop, proj):
+    if not net_tie.applicable(rr["case"]):
+        return False
+    try:
+        resp = run_model([net_tie.net_request(rr["case"])])[0]
+    except Exception:  # noqa: BLE001
+        return False
+    st = prop in NET_STRUCTURE_PROPS
+    return net_tie.compare_calls(rr["calls"], rr.get("net0") if st else None, rr.get("net1") if st else None, resp,
+                                 proj=(proj_net_c01 if prop == "C01" else proj)) is not None
 
 
 def disagree_pred(rr, proj):
